@@ -257,6 +257,7 @@ func runC13(c *Check) {
 	c.ruleToRequestEmptied("R9", a)
 	c.ruleSizeCoupledWithCounter("R10", a)
 	c.rulePendingForkGuardOnParent("R7")
+	c.ruleRequestOnlyIfUnknownEverywhere("R11")
 	c.ruleRemovedRangeIsCountedRange("R2", a.blocksRequested, a.pendingBlockSize)
 
 	// ---- R6: lockset for State
